@@ -11,7 +11,7 @@ MANIFEST = {}
 
 
 def graph_property(work, args, *, pid, module, mcmodule, pkg, formulas, mc_cfgs, gen_cfgs, reset_op,
-                   level_note, design_ref, assumptions, recorder=None, extra_prop_invariants=(), never_ok=(), write=True):
+                   level_note, design_ref, assumptions, recorder=None, extra_prop_invariants=(), never_ok=(), write=True, test="TestReplay", test_path="TestPath"):
     """Generic check for a property decided on a graph-replayed specification.
 
     formulas: dict(invariants=[...], properties=[...], p_properties=[...]) - the property's formulas in
@@ -21,7 +21,7 @@ def graph_property(work, args, *, pid, module, mcmodule, pkg, formulas, mc_cfgs,
     tier = work.tier
     if getattr(args, "replay", None):
         return replay_path(work, args.replay, pid=pid, module=module, pkg=pkg, formulas=formulas, reset_op=reset_op,
-                           extra_prop_invariants=extra_prop_invariants)
+                           extra_prop_invariants=extra_prop_invariants, test_path=test_path)
     ev = dict(states=0, transitions=0, traces_validated_against_impl=0, samples=[], mc_runs=[], gen_runs=[],
               replay=[], formulas=formulas["invariants"] + formulas["properties"])
     # ---- 1. model checking: the design satisfies the property's formulas (and only those are listed)
@@ -72,7 +72,7 @@ def graph_property(work, args, *, pid, module, mcmodule, pkg, formulas, mc_cfgs,
             for h in c["harness"]:
                 tag = "%s-%s" % (c["name"], h.get("chain", "x"))
                 stats, traces = vlib.replay(work, get_binary(), edges, h, tag, shards=c.get("shards", 8),
-                                            rej_sample=c.get("rej_sample", 0), explore=c.get("explore", 4))
+                                            rej_sample=c.get("rej_sample", 0), explore=c.get("explore", 4), test=test)
                 per_h.append(dict(harness=h, tag=tag, stats=stats, traces=[os.path.basename(t) for t in traces], init=init))
                 files += traces
             vlib.cache_put(key, dict(per_harness=per_h, gen=gen_r), files)
@@ -156,7 +156,7 @@ def graph_property(work, args, *, pid, module, mcmodule, pkg, formulas, mc_cfgs,
             first, doc = vlib.trace_of_line(index, l - 1)
             steps = doc["trace"][: max(1, l - 1 - first)]
             violation = dict(formula=r["violated"], cfg=name, harness=h, init=init, steps=steps, why=doc.get("why"),
-                             consts=c.get("prop_consts", c["consts"]), overrides=c.get("overrides"))
+                             consts=c.get("prop_consts", c["consts"]), overrides=c.get("overrides"), module=module)
             break
         if r["error"] or r["postcondition_failed"] or r["rc"] != 0:
             raise Infra("property evaluation on real traces failed (%s): %s\n%s" % (name, r["error"], r["tail"][-1500:]))
@@ -198,7 +198,7 @@ def merge_evidence(a, b):
     out["samples"] = out["samples"][:6]
     out["exhaustive"] = bool(a.get("exhaustive")) and bool(b.get("exhaustive"))
     acc = dict(a.get("accepted_by_operation", {}))
-    acc.update({"attest." + k: v for k, v in b.get("accepted_by_operation", {}).items()})
+    acc.update({"part2." + k: v for k, v in b.get("accepted_by_operation", {}).items()})
     out["accepted_by_operation"] = acc
     return out
 
@@ -249,14 +249,14 @@ def make_recorder(*, module, mcmodule, pkg, name, consts, overrides, harness, re
     return dict(tiers=tiers, run=run)
 
 
-def replay_path(work, path, *, pid, module, pkg, formulas, reset_op, extra_prop_invariants=()):
+def replay_path(work, path, *, pid, module, pkg, formulas, reset_op, extra_prop_invariants=(), test_path="TestPath"):
     """--replay: re-executes a saved violation path on the real code and lets TLC evaluate the formulas again."""
     doc = json.load(open(path))
     binary = vlib.build(work, pkg)
     pf = work.path("path.json")
     json.dump(dict(steps=doc["steps"]), open(pf, "w"))
     tf = work.path("path-traces.ndjson")
-    p = vlib.run_harness(work, binary, "TestPath", dict(VERIF_PATH=pf, VERIF_TRACES=tf, VERIF_CONST=json.dumps(doc["harness"])), work.path("path.log"))
+    p = vlib.run_harness(work, binary, test_path, dict(VERIF_PATH=pf, VERIF_TRACES=tf, VERIF_CONST=json.dumps(doc["harness"])), work.path("path.log"))
     if p.wait() != 0:
         raise Infra("replay harness failed:\n" + open(work.path("path.log")).read()[-3000:])
     log(open(work.path("path.log")).read()[-3000:])
